@@ -108,7 +108,7 @@ theorem writeRepr_sim (A : Nat) (e : Encoder) (d : DecCore) (f : Field) (rest : 
       unfold appendIndexed
       cases h : appendVarInt 7 128 (e.searchTable f).1 with
       | nil => exact absurd h this
-      | cons a t => simp
+      | cons a t => simp; omega
   · have hm' : (e.searchTable f).2 = false := by simpa using hm
     simp only [hm', Bool.false_eq_true, ↓reduceIte]
     -- the literal kind
@@ -132,7 +132,7 @@ theorem writeRepr_sim (A : Nat) (e : Encoder) (d : DecCore) (f : Field) (rest : 
           rw [parseRepr_literal_idx d hs.cfg k _ (f.name, v) f.value rest (by omega) (hidx _ _ hat) hat (by omega) hvb,
             hsens, field_eta' f _ rfl]
       · by_cases h0 : (e.searchTable f).1 = 0
-        · simp [h0, appendNewName]
+        · simp [h0, appendNewName]; omega
         · simp only [h0, ↓reduceIte, appendIndexedName, List.append_assoc, List.length_append]
           have := appendVarInt_ne_nil (if indexing = true then 6 else 4) (encodeTypeByte indexing f.sensitive)
             (e.searchTable f).1
@@ -203,5 +203,589 @@ theorem writeRepr_sim (A : Nat) (e : Encoder) (d : DecCore) (f : Field) (rest : 
       | false =>
         exact key .without false hsi (by simp [encodeTypeByte, hsens, LitKind.flag]) (by simp [LitKind.n])
           (by simp [LitKind.it, IndexType.sensitive, hsens]) (by simp)
+
+/-! ### The pending table size update -/
+
+/-- **The region of the defect**: two updates are pending (`minSize < maxSize`) and the decoder's
+table is still non-empty after the first one (`d.dynTab.size > 0` in `parseDynamicTableSizeUpdate`). -/
+def hitsDefect (e : Encoder) (d : DecCore) : Bool :=
+  e.tableSizeUpdate && decide (e.minSize < e.dyn.maxSize) && decide ((d.dyn.setMaxSize e.minSize).size > 0)
+
+/-- The decoder applies a bound `v` the encoder's table already respects. -/
+theorem sim_dec_setMax {A : Nat} {e : Encoder} {d : DecCore} (hs : Sim A e d) (v : Nat) (hv : v ≤ A)
+    (hfit : e.dyn.size ≤ v) (b : Bool) (e2 : Encoder) (hdyn : e2.dyn = e.dyn)
+    (hlim : e2.maxSizeLimit = e.maxSizeLimit)
+    (hsync : e2.tableSizeUpdate = false → e2.dyn.maxSize ≤ v) (hmin : e2.dyn.size ≤ e2.minSize)
+    (hreset : e2.tableSizeUpdate = false → e2.minSize = uint32Max) :
+    Sim A e2 { d with dyn := d.dyn.setMaxSize v, firstField := b } := by
+  have hd := setMaxSize_sizeOK d.dyn v hs.dsz
+  exact {
+    pre := by rw [hdyn]; exact setMaxSize_prefix e.dyn d.dyn v hs.esz hs.dsz hs.pre hfit
+    esz := by rw [hdyn]; exact hs.esz
+    dsz := hd.1
+    efit := by rw [hdyn]; exact hs.efit
+    dfit := by show (d.dyn.setMaxSize v).size ≤ (d.dyn.setMaxSize v).maxSize
+               rw [hd.2.2.2.1]; exact hd.2.1
+    cfg := ⟨hs.cfg.str, hs.cfg.emit⟩
+    allowed := by show (d.dyn.setMaxSize v).allowedMaxSize = A
+                  rw [hd.2.2.2.2]; exact hs.allowed
+    dmaxle := by show (d.dyn.setMaxSize v).maxSize ≤ A
+                 rw [hd.2.2.2.1]; exact hv
+    maxle := by rw [hdyn, hlim]; exact hs.maxle
+    limle := by rw [hlim]; exact hs.limle
+    sync := by
+      intro hu
+      show e2.dyn.maxSize ≤ (d.dyn.setMaxSize v).maxSize
+      rw [hd.2.2.2.1]; exact hsync hu
+    minInv := hmin
+    minReset := hreset }
+
+theorem appendTableSize_length (v : Nat) (rest : Bytes) : rest.length < (appendTableSize v ++ rest).length := by
+  have := List.length_pos_iff.mpr (appendVarInt_ne_nil 5 32 v)
+  unfold appendTableSize
+  simp only [List.length_append]
+  omega
+
+/-- The `tableSizeUpdate` prologue of `WriteField` is consumed by the decoder's loop, outside the
+defect region, and re-establishes `maxSize` agreement. -/
+theorem flush_sim (A : Nat) (e : Encoder) (d : DecCore) (par : Bool) (acc : List Field) (rest : Bytes)
+    (hs : Sim A e d) (hA : A ≤ uint32Max) (hff : e.tableSizeUpdate = true → d.firstField = true)
+    (hreg : hitsDefect e d = false) :
+    ∃ d', loopG par d (e.flushUpdate.2 ++ rest) acc = loopG par d' rest acc ∧
+      Sim A e.flushUpdate.1 d' ∧ e.flushUpdate.1.tableSizeUpdate = false := by
+  have hA' : A < 2 ^ 32 := by unfold uint32Max at hA; omega
+  have hmaxA : e.dyn.maxSize ≤ A := Nat.le_trans hs.maxle hs.limle
+  unfold Encoder.flushUpdate
+  cases hu : e.tableSizeUpdate with
+  | false =>
+    simp only [Bool.false_eq_true, ↓reduceIte, List.nil_append]
+    exact ⟨d, rfl, hs, hu⟩
+  | true =>
+    simp only [↓reduceIte]
+    have hsz1 : e.dyn.size ≤ uint32Max := by have := hs.efit; omega
+    by_cases hlt : e.minSize < e.dyn.maxSize
+    · -- two updates
+      simp only [hlt, ↓reduceIte, List.append_assoc]
+      have hz : (d.dyn.setMaxSize e.minSize).size = 0 := by
+        unfold hitsDefect at hreg
+        simp only [hu, hlt, decide_true, Bool.and_self, Bool.true_and, decide_eq_false_iff_not] at hreg
+        omega
+      have hd1 := setMaxSize_sizeOK d.dyn e.minSize hs.dsz
+      have s1 : Sim A e { d with dyn := d.dyn.setMaxSize e.minSize, firstField := false } :=
+        sim_dec_setMax hs e.minSize (by omega) hs.minInv false e rfl rfl (by intro h; rw [hu] at h; cases h)
+          hs.minInv hs.minReset
+      have p1 := parseRepr_sizeUpdate d e.minSize (appendTableSize e.dyn.maxSize ++ rest)
+        (by rw [hs.allowed]; omega) (by omega) (Or.inl (hff hu))
+      rw [loopG_step par d _ _ _ none acc p1 (appendTableSize_length _ _)]
+      have p2 := parseRepr_sizeUpdate { d with dyn := d.dyn.setMaxSize e.minSize, firstField := false }
+        e.dyn.maxSize rest (by rw [s1.allowed]; exact hmaxA) (by omega) (Or.inr hz)
+      rw [loopG_step par _ _ _ _ none _ p2 (appendTableSize_length _ _)]
+      simp only [optToList, List.append_nil]
+      refine ⟨_, rfl, ?_, by simp⟩
+      exact sim_dec_setMax s1 e.dyn.maxSize hmaxA hs.efit false _ rfl rfl (fun _ => Nat.le_refl _)
+        (by show e.dyn.size ≤ uint32Max; exact hsz1) (fun _ => rfl)
+    · -- one update
+      simp only [hlt, ↓reduceIte, List.nil_append]
+      have p1 := parseRepr_sizeUpdate d e.dyn.maxSize rest (by rw [hs.allowed]; exact hmaxA) (by omega)
+        (Or.inl (hff hu))
+      rw [loopG_step par d _ _ _ none acc p1 (appendTableSize_length _ _)]
+      simp only [optToList, List.append_nil]
+      refine ⟨_, rfl, ?_, by simp⟩
+      exact sim_dec_setMax hs e.dyn.maxSize hmaxA hs.efit false _ rfl rfl (fun _ => Nat.le_refl _)
+        (by show e.dyn.size ≤ uint32Max; exact hsz1) (fun _ => rfl)
+
+/-! ### One `WriteField` / `Write` -/
+
+/-- **One field**: the bytes of `WriteField f`, given to `Decoder.Write`, emit exactly `f`. -/
+theorem writeField_sim (A : Nat) (e : Encoder) (d : Decoder) (f : Field)
+    (hs : Sim A e d.toDecCore) (hsave : d.saveBuf = []) (hA : A ≤ uint32Max)
+    (hff : e.tableSizeUpdate = true → d.firstField = true)
+    (hreg : hitsDefect e d.toDecCore = false) (hf : FieldOK f) :
+    ∃ d', d.write (e.writeField f).2 = (d', [f], none) ∧ Sim A (e.writeField f).1 d'.toDecCore ∧
+      (e.writeField f).1.tableSizeUpdate = false ∧ d'.saveBuf = [] := by
+  unfold Encoder.writeField
+  simp only
+  obtain ⟨d1, hl1, s1, hu1⟩ := flush_sim A e d.toDecCore true [] (e.flushUpdate.1.writeRepr f).2 hs hA hff hreg
+  obtain ⟨d2, hp2, hlen2, s2, hu2⟩ := writeRepr_sim A e.flushUpdate.1 d1 f [] s1 hu1 hf hA
+  have hne : e.flushUpdate.2 ++ (e.flushUpdate.1.writeRepr f).2 ≠ [] := by
+    intro h0
+    have : (e.flushUpdate.1.writeRepr f).2 = [] := (List.append_eq_nil_iff.mp h0).2
+    rw [this] at hlen2
+    simp at hlen2
+  rw [write_eq d _ hne, hsave, List.nil_append, hl1]
+  rw [List.append_nil] at hp2 hlen2
+  rw [loopG_step true d1 d2 _ [] (some f) [] hp2 hlen2, loopG_nil]
+  refine ⟨{ toDecCore := { d2 with firstField := false }, saveBuf := [] }, ?_, s2.setFF false, hu2, rfl⟩
+  simp [finishWrite, optToList]
+
+/-- **One block**: consecutive `WriteField`s fed to consecutive `Write`s. -/
+theorem writeFields_sim (A : Nat) (hA : A ≤ uint32Max) : ∀ (fs : List Field) (e : Encoder) (d : Decoder),
+    Sim A e d.toDecCore → d.saveBuf = [] → (e.tableSizeUpdate = true → d.firstField = true) →
+    (fs ≠ [] → hitsDefect e d.toDecCore = false) → (∀ f ∈ fs, FieldOK f) →
+    ∃ d', runChunks true d (e.writeFields fs).2 = (d', fs, none) ∧ Sim A (e.writeFields fs).1 d'.toDecCore ∧
+      d'.saveBuf = [] ∧ (fs ≠ [] → (e.writeFields fs).1.tableSizeUpdate = false) := by
+  intro fs
+  induction fs with
+  | nil =>
+    intro e d hs hsave _ _ _
+    exact ⟨d, rfl, hs, hsave, fun h => absurd rfl h⟩
+  | cons f fs ih =>
+    intro e d hs hsave hff hreg hok
+    obtain ⟨d1, hw, s1, hu1, hsave1⟩ := writeField_sim A e d f hs hsave hA hff (hreg (by simp))
+      (hok f (by simp))
+    have hreg1 : hitsDefect (e.writeField f).1 d1.toDecCore = false := by
+      unfold hitsDefect; rw [hu1]; rfl
+    obtain ⟨d2, hr, s2, hsave2, hu2⟩ := ih (e.writeField f).1 d1 s1 hsave1
+      (by intro h; rw [hu1] at h; cases h) (fun _ => hreg1) (fun g hg => hok g (by simp [hg]))
+    refine ⟨d2, ?_, s2, hsave2, ?_⟩
+    · simp only [Encoder.writeFields, runChunks]
+      have hw' : d.writeG true (e.writeField f).2 = (d1, [f], none) := hw
+      rw [hw']
+      simp only
+      rw [hr]
+      rfl
+    · intro _
+      simp only [Encoder.writeFields]
+      cases fs with
+      | nil => exact hu1
+      | cons g gs => exact hu2 (by simp)
+
+/-! ### Table size calls between blocks -/
+
+theorem sizeOp_sim {A : Nat} {e : Encoder} {d : DecCore} (hs : Sim A e d) (op : SizeOp)
+    (hop : ∀ v, op = .setLimit v → v ≤ A) : Sim A (e.sizeOp op) d := by
+  cases op with
+  | setMax v =>
+    simp only [Encoder.sizeOp, Encoder.setMaxDynamicTableSize]
+    generalize hv' : (if v > e.maxSizeLimit then e.maxSizeLimit else v) = v'
+    have hv'le : v' ≤ e.maxSizeLimit := by rw [← hv']; split <;> omega
+    have he := setMaxSize_sizeOK e.dyn v' hs.esz
+    exact {
+      pre := List.IsPrefix.trans (setMaxSize_ents_prefix e.dyn v') hs.pre
+      esz := he.1
+      dsz := hs.dsz
+      efit := by show (e.dyn.setMaxSize v').size ≤ (e.dyn.setMaxSize v').maxSize
+                 rw [he.2.2.2.1]; exact he.2.1
+      dfit := hs.dfit
+      cfg := hs.cfg
+      allowed := hs.allowed
+      dmaxle := hs.dmaxle
+      maxle := by show (e.dyn.setMaxSize v').maxSize ≤ e.maxSizeLimit
+                  rw [he.2.2.2.1]; exact hv'le
+      limle := hs.limle
+      sync := by intro h; cases h
+      minInv := by
+        show (e.dyn.setMaxSize v').size ≤ (if v' < e.minSize then v' else e.minSize)
+        have h1 := he.2.1
+        have h2 := he.2.2.1
+        have h3 := hs.minInv
+        split <;> omega
+      minReset := by intro h; cases h }
+  | setLimit v =>
+    have hvA := hop v rfl
+    simp only [Encoder.sizeOp, Encoder.setMaxDynamicTableSizeLimit]
+    by_cases hgt : e.dyn.maxSize > v
+    · simp only [hgt, ↓reduceIte]
+      have he := setMaxSize_sizeOK e.dyn v hs.esz
+      exact {
+        pre := List.IsPrefix.trans (setMaxSize_ents_prefix e.dyn v) hs.pre
+        esz := he.1
+        dsz := hs.dsz
+        efit := by show (e.dyn.setMaxSize v).size ≤ (e.dyn.setMaxSize v).maxSize
+                   rw [he.2.2.2.1]; exact he.2.1
+        dfit := hs.dfit
+        cfg := hs.cfg
+        allowed := hs.allowed
+        dmaxle := hs.dmaxle
+        maxle := by show (e.dyn.setMaxSize v).maxSize ≤ v
+                    rw [he.2.2.2.1]; exact Nat.le_refl _
+        limle := hvA
+        sync := by intro h; cases h
+        minInv := by
+          show (e.dyn.setMaxSize v).size ≤ e.minSize
+          have h2 := he.2.2.1
+          have h3 := hs.minInv
+          omega
+        minReset := by intro h; cases h }
+    · simp only [hgt, ↓reduceIte]
+      exact {
+        pre := hs.pre, esz := hs.esz, dsz := hs.dsz, efit := hs.efit, dfit := hs.dfit, cfg := hs.cfg,
+        allowed := hs.allowed, dmaxle := hs.dmaxle
+        maxle := by show e.dyn.maxSize ≤ v; omega
+        limle := hvA
+        sync := hs.sync, minInv := hs.minInv, minReset := hs.minReset }
+
+theorem sizeOps_sim {A : Nat} : ∀ (ops : List SizeOp) {e : Encoder} {d : DecCore}, Sim A e d →
+    (∀ v, SizeOp.setLimit v ∈ ops → v ≤ A) → Sim A (ops.foldl Encoder.sizeOp e) d := by
+  intro ops
+  induction ops with
+  | nil => intro e d hs _; exact hs
+  | cons op ops ih =>
+    intro e d hs hop
+    simp only [List.foldl_cons]
+    exact ih (sizeOp_sim hs op (fun v hv => hop v (by simp [hv]))) (fun v hv => hop v (by simp [hv]))
+
+theorem sizeOp_flag (e : Encoder) (op : SizeOp) (h : e.tableSizeUpdate = true) : (e.sizeOp op).tableSizeUpdate = true := by
+  cases op with
+  | setMax v => rfl
+  | setLimit v =>
+    simp only [Encoder.sizeOp, Encoder.setMaxDynamicTableSizeLimit]
+    split
+    · rfl
+    · exact h
+
+/-! ### Histories -/
+
+/-- Encoder and decoder of one connection direction. -/
+structure Sys where
+  enc : Encoder
+  dec : Decoder
+  deriving Repr
+
+/-- `NewEncoder`; `NewDecoder(4096)` + `SetAllowedMaxDynamicTableSize(A)`. -/
+def Sys.init (A : Nat) : Sys :=
+  { enc := Encoder.new, dec := (Decoder.new initialHeaderTableSize).setAllowedMaxDynamicTableSize A }
+
+/-- One block: size calls, one `WriteField`/`Write` per field, `Close`.
+Result: new state, the fields the decoder emitted, the decoder's error if any. -/
+def Sys.block (s : Sys) (b : Block) : Sys × List Field × Option PErr :=
+  let r := s.enc.encodeBlock b
+  let w := runWrites s.dec r.2
+  ({ enc := r.1, dec := w.1 }, w.2.1, w.2.2)
+
+/-- A history: what the decoder reports per block. -/
+def Sys.run : Sys → List Block → List (List Field × Option PErr)
+  | _, [] => []
+  | s, b :: bs => ((s.block b).2.1, (s.block b).2.2) :: Sys.run (s.block b).1 bs
+
+/-- No block of the history starts inside the defect region (computed along the joint run). -/
+def avoidsDefect : Sys → List Block → Bool
+  | _, [] => true
+  | s, b :: bs =>
+    (b.fields.isEmpty || !hitsDefect (b.pre.foldl Encoder.sizeOp s.enc) s.dec.toDecCore) &&
+      avoidsDefect (s.block b).1 bs
+
+/-- Hypotheses of the statement: byte strings of non-overflowing size; the decoder's bound `A`
+covers every limit the encoder is given. -/
+def HistOK (A : Nat) (h : List Block) : Prop :=
+  (∀ b ∈ h, ∀ f ∈ b.fields, FieldOK f) ∧ (∀ b ∈ h, ∀ v, SizeOp.setLimit v ∈ b.pre → v ≤ A)
+
+/-- State between blocks. -/
+structure Between (A : Nat) (s : Sys) : Prop where
+  sim : Sim A s.enc s.dec.toDecCore
+  save : s.dec.saveBuf = []
+  ff : s.dec.firstField = true
+
+theorem init_between (A : Nat) (hA : initialHeaderTableSize ≤ A) : Between A (Sys.init A) := by
+  refine ⟨?_, rfl, rfl⟩
+  unfold initialHeaderTableSize at hA
+  exact {
+    pre := by exact List.prefix_refl _
+    esz := show Encoder.new.dyn.size = sizeSum Encoder.new.dyn.ents from by decide
+    dsz := by unfold SizeOK; rfl
+    efit := show Encoder.new.dyn.size ≤ Encoder.new.dyn.maxSize from by decide
+    dfit := Nat.zero_le _
+    cfg := ⟨rfl, rfl⟩
+    allowed := rfl
+    dmaxle := hA
+    maxle := show Encoder.new.dyn.maxSize ≤ Encoder.new.maxSizeLimit from by decide
+    limle := hA
+    sync := by intro _; exact (show Encoder.new.dyn.maxSize ≤ 4096 from by decide)
+    minInv := show Encoder.new.dyn.size ≤ Encoder.new.minSize from by decide
+    minReset := by intro _; rfl }
+
+theorem block_sim (A : Nat) (hA : A ≤ uint32Max) (s : Sys) (b : Block) (hb : Between A s)
+    (hf : ∀ f ∈ b.fields, FieldOK f) (hl : ∀ v, SizeOp.setLimit v ∈ b.pre → v ≤ A)
+    (hreg : b.fields ≠ [] → hitsDefect (b.pre.foldl Encoder.sizeOp s.enc) s.dec.toDecCore = false) :
+    (s.block b).2 = (b.fields, none) ∧ Between A (s.block b).1 := by
+  have s1 := sizeOps_sim b.pre hb.sim hl
+  obtain ⟨d', hr, s2, hsave, _⟩ := writeFields_sim A hA b.fields (b.pre.foldl Encoder.sizeOp s.enc) s.dec s1 hb.save
+    (fun _ => hb.ff) hreg hf
+  have hrun : runWrites s.dec ((b.pre.foldl Encoder.sizeOp s.enc).writeFields b.fields).2 =
+      ({ d' with firstField := true }, b.fields, none) := by
+    unfold runWrites runWritesG
+    rw [hr]
+    simp [Decoder.close, hsave]
+  unfold Sys.block Encoder.encodeBlock
+  simp only
+  rw [hrun]
+  exact ⟨rfl, s2.setFF true, hsave, rfl⟩
+
+/-- **The property at full strength** (false for the code as it is: `roundtrip_history_full_false`). -/
+def RoundtripStatement : Prop :=
+  ∀ (A : Nat) (h : List Block), initialHeaderTableSize ≤ A → A ≤ uint32Max → HistOK A h →
+    Sys.run (Sys.init A) h = h.map (fun b => (b.fields, none))
+
+theorem run_sim (A : Nat) (hA : A ≤ uint32Max) : ∀ (h : List Block) (s : Sys), Between A s → HistOK A h →
+    avoidsDefect s h = true → Sys.run s h = h.map (fun b => (b.fields, none)) := by
+  intro h
+  induction h with
+  | nil => intro s _ _ _; rfl
+  | cons b bs ih =>
+    intro s hb hok hreg
+    simp only [avoidsDefect, Bool.and_eq_true, Bool.or_eq_true, List.isEmpty_iff, Bool.not_eq_true'] at hreg
+    have hblk := block_sim A hA s b hb (hok.1 b (by simp)) (hok.2 b (by simp))
+      (by intro hne; rcases hreg.1 with h0 | h0
+          · exact absurd h0 hne
+          · exact h0)
+    simp only [Sys.run, List.map_cons]
+    rw [ih (s.block b).1 hblk.2 ⟨fun b' hb' => hok.1 b' (by simp [hb']), fun b' hb' => hok.2 b' (by simp [hb'])⟩ hreg.2]
+    rw [show ((s.block b).2.1, (s.block b).2.2) = (s.block b).2 from rfl, hblk.1]
+
+/-- **C01, for the code as it is, outside the defect region**: every history of header blocks with
+arbitrary `SetMaxDynamicTableSize` / `SetMaxDynamicTableSizeLimit` calls between blocks decodes to
+exactly the fields written — same order, names, values and `Sensitive` flags — without error. -/
+theorem roundtrip_history_holds_partial (A : Nat) (h : List Block) (hA0 : initialHeaderTableSize ≤ A)
+    (hA : A ≤ uint32Max) (hok : HistOK A h) (hreg : avoidsDefect (Sys.init A) h = true) :
+    Sys.run (Sys.init A) h = h.map (fun b => (b.fields, none)) :=
+  run_sim A hA h (Sys.init A) (init_between A hA0) hok hreg
+
+/-! ### The statement is false for the code as it is -/
+
+def witnessField : Field := { name := [97], value := [98] }
+
+/-- Write `a: b`; `SetMaxDynamicTableSize(34)`; `SetMaxDynamicTableSize(4096)`; write `a: b` again. -/
+def witnessHistory : List Block :=
+  [{ fields := [witnessField] }, { pre := [.setMax 34, .setMax 4096], fields := [witnessField] }]
+
+/-- The second block is rejected by the decoder (kernel evaluation of both models). -/
+theorem witness_run :
+    Sys.run (Sys.init 4096) witnessHistory = [([witnessField], none), ([], some .updateNotAtStart)] := by
+  decide +kernel
+
+theorem witness_histOK : HistOK 4096 witnessHistory := by
+  constructor
+  · intro b hb f hf
+    simp only [witnessHistory, List.mem_cons, List.not_mem_nil, or_false] at hb
+    rcases hb with rfl | rfl <;>
+    · simp only [List.mem_cons, List.not_mem_nil, or_false] at hf
+      subst hf
+      refine ⟨?_, ?_, by decide⟩ <;> (intro x hx; simp [witnessField] at hx; omega)
+  · intro b hb v hv
+    simp only [witnessHistory, List.mem_cons, List.not_mem_nil, or_false] at hb
+    rcases hb with rfl | rfl <;> simp at hv
+
+theorem witness_in_region : avoidsDefect (Sys.init 4096) witnessHistory = false := by decide +kernel
+
+/-- **`RoundtripStatement` does not hold for the code as it is** (finding
+`c01-double-size-update-rejected`). -/
+theorem roundtrip_history_full_false : ¬ RoundtripStatement := by
+  intro h
+  have h1 := h 4096 witnessHistory (by decide) (by decide) witness_histOK
+  rw [witness_run] at h1
+  exact absurd h1 (by decide)
+
+/-- **The excluded region is exact**: whenever a block starts inside it, the decoder rejects the
+encoder's bytes of the first field with "dynamic table size update MUST occur at the beginning…"
+and emits nothing. -/
+theorem defect_region_fails (A : Nat) (e : Encoder) (d : Decoder) (f : Field)
+    (hs : Sim A e d.toDecCore) (hsave : d.saveBuf = []) (hA : A ≤ uint32Max) (hff : d.firstField = true)
+    (hreg : hitsDefect e d.toDecCore = true) :
+    ∃ d', d.write (e.writeField f).2 = (d', [], some .updateNotAtStart) := by
+  have hA' : A < 2 ^ 32 := by unfold uint32Max at hA; omega
+  unfold hitsDefect at hreg
+  simp only [Bool.and_eq_true, decide_eq_true_eq] at hreg
+  obtain ⟨⟨hu, hlt⟩, hsz⟩ := hreg
+  have hmaxA : e.dyn.maxSize ≤ A := Nat.le_trans hs.maxle hs.limle
+  have hbytes : (e.writeField f).2 =
+      appendTableSize e.minSize ++ (appendTableSize e.dyn.maxSize ++ (e.flushUpdate.1.writeRepr f).2) := by
+    unfold Encoder.writeField Encoder.flushUpdate
+    simp [hu, hlt]
+  have hne : (e.writeField f).2 ≠ [] := by
+    rw [hbytes]
+    have := appendTableSize_length e.minSize (appendTableSize e.dyn.maxSize ++ (e.flushUpdate.1.writeRepr f).2)
+    intro h0
+    rw [h0] at this
+    simp at this
+  rw [write_eq d _ hne, hsave, List.nil_append, hbytes]
+  have p1 := parseRepr_sizeUpdate d.toDecCore e.minSize
+    (appendTableSize e.dyn.maxSize ++ (e.flushUpdate.1.writeRepr f).2)
+    (by rw [hs.allowed]; omega) (by omega) (Or.inl hff)
+  rw [loopG_step true _ _ _ _ none [] p1 (appendTableSize_length _ _)]
+  have p2 := parseRepr_sizeUpdate_reject
+    { d.toDecCore with dyn := d.dyn.setMaxSize e.minSize, firstField := false } e.dyn.maxSize
+    (e.flushUpdate.1.writeRepr f).2 rfl hsz
+  have hne2 : appendTableSize e.dyn.maxSize ++ (e.flushUpdate.1.writeRepr f).2 ≠ [] := by
+    have := appendTableSize_length e.dyn.maxSize (e.flushUpdate.1.writeRepr f).2
+    intro h0
+    rw [h0] at this
+    simp at this
+  rw [loopG_err true _ _ _ _ _ hne2 p2]
+  exact ⟨_, rfl⟩
+
+/-! ### Corollaries without the region hypothesis -/
+
+theorem flushUpdate_flag (e : Encoder) : e.flushUpdate.1.tableSizeUpdate = false := by
+  unfold Encoder.flushUpdate
+  cases h : e.tableSizeUpdate <;> simp [h]
+
+theorem writeRepr_flag (e : Encoder) (f : Field) : (e.writeRepr f).1.tableSizeUpdate = e.tableSizeUpdate := by
+  unfold Encoder.writeRepr
+  simp only
+  split
+  · rfl
+  · split <;> rfl
+
+theorem writeField_flag (e : Encoder) (f : Field) : (e.writeField f).1.tableSizeUpdate = false := by
+  unfold Encoder.writeField
+  simp only
+  rw [writeRepr_flag, flushUpdate_flag]
+
+theorem writeFields_flag : ∀ (fs : List Field) (e : Encoder), e.tableSizeUpdate = false →
+    (e.writeFields fs).1.tableSizeUpdate = false := by
+  intro fs
+  induction fs with
+  | nil => intro e h; exact h
+  | cons f fs ih => intro e _; exact ih _ (writeField_flag e f)
+
+theorem hitsDefect_of_flag (e : Encoder) (d : DecCore) (h : e.tableSizeUpdate = false) : hitsDefect e d = false := by
+  unfold hitsDefect; rw [h]; rfl
+
+theorem avoidsDefect_no_ops : ∀ (h : List Block) (s : Sys), (∀ b ∈ h, b.pre = []) →
+    s.enc.tableSizeUpdate = false → avoidsDefect s h = true := by
+  intro h
+  induction h with
+  | nil => intro _ _ _; rfl
+  | cons b bs ih =>
+    intro s hno hu
+    have hb : b.pre = [] := hno b (by simp)
+    simp only [avoidsDefect, hb, List.foldl_nil, hitsDefect_of_flag _ _ hu, Bool.not_false, Bool.or_true,
+      Bool.true_and]
+    apply ih _ (fun b' hb' => hno b' (by simp [hb']))
+    show ((b.pre.foldl Encoder.sizeOp s.enc).writeFields b.fields).1.tableSizeUpdate = false
+    rw [hb]
+    exact writeFields_flag _ _ hu
+
+/-- **Round trip at full strength for histories without table size calls** (any number of blocks,
+static/dynamic hits, evictions, sensitive fields). -/
+theorem roundtrip_no_size_change (A : Nat) (h : List Block) (hA0 : initialHeaderTableSize ≤ A)
+    (hA : A ≤ uint32Max) (hok : HistOK A h) (hno : ∀ b ∈ h, b.pre = []) :
+    Sys.run (Sys.init A) h = h.map (fun b => (b.fields, none)) :=
+  roundtrip_history_holds_partial A h hA0 hA hok (avoidsDefect_no_ops h _ hno rfl)
+
+/-- A size call sequence that never raises after lowering cannot produce two updates: if the
+pending minimum is not below the current maximum the block is outside the region. -/
+theorem hitsDefect_of_min_ge (e : Encoder) (d : DecCore) (h : e.dyn.maxSize ≤ e.minSize) : hitsDefect e d = false := by
+  unfold hitsDefect
+  have : decide (e.minSize < e.dyn.maxSize) = false := by simp; omega
+  rw [this]; simp
+
+/-- **Round trip at full strength for one block after arbitrary size calls on a fresh connection**
+(the table is empty, so nothing can be left in it after the first update). -/
+theorem roundtrip_single_block (A : Nat) (b : Block) (hA0 : initialHeaderTableSize ≤ A)
+    (hA : A ≤ uint32Max) (hok : HistOK A [b]) :
+    Sys.run (Sys.init A) [b] = [(b.fields, none)] := by
+  apply roundtrip_history_holds_partial A [b] hA0 hA hok
+  simp only [avoidsDefect, Bool.and_true, Bool.or_eq_true, List.isEmpty_iff, Bool.not_eq_true']
+  right
+  unfold hitsDefect
+  have hz : ((Sys.init A).dec.dyn.setMaxSize (b.pre.foldl Encoder.sizeOp (Sys.init A).enc).minSize).size = 0 := by
+    have h1 := setMaxSize_sizeOK (Sys.init A).dec.dyn (b.pre.foldl Encoder.sizeOp (Sys.init A).enc).minSize
+      (by unfold SizeOK; rfl)
+    have h2 : (Sys.init A).dec.dyn.size = 0 := rfl
+    omega
+  rw [hz]
+  simp
+
+/-! ### T-tie: the static table's search index (`static_table.go` literal maps) -/
+
+def lookupN (m : List (List Nat × Nat)) (k : List Nat) : Nat :=
+  match m.find? (fun p => p.1 == k) with
+  | some p => p.2
+  | none => 0
+
+def lookupNV (m : List ((List Nat × List Nat) × Nat)) (k : List Nat × List Nat) : Nat :=
+  match m.find? (fun p => p.1 == k) with
+  | some p => p.2
+  | none => 0
+
+theorem byName_points_at_last :
+    Gen.C01.byName.all (fun p => lastIdx (fun e => e.1 == p.1) staticTable == p.2) = true := by decide +kernel
+
+theorem byName_covers :
+    staticTable.all (fun e => Gen.C01.byName.any (fun p => p.1 == e.1)) = true := by decide +kernel
+
+theorem byNameValue_points_at_last :
+    Gen.C01.byNameValue.all (fun p => lastIdx (fun e => e.1 == p.1.1 && e.2 == p.1.2) staticTable == p.2) = true := by
+  decide +kernel
+
+theorem byNameValue_covers :
+    staticTable.all (fun e => Gen.C01.byNameValue.any (fun p => p.1 == e)) = true := by decide +kernel
+
+theorem mem_of_getElem? {α : Type} (l : List α) (i : Nat) (a : α) (h : l[i]? = some a) : a ∈ l :=
+  List.mem_of_getElem? h
+
+/-- **The literal index maps of `static_table.go` are the model's search function**: for every
+field, `staticTable.byNameValue[{name,value}]` / `staticTable.byName[name]` (0 when absent) is the
+position of the LAST static entry with that pair / name. -/
+theorem static_index_is_lastIdx (f : Field) :
+    lookupNV Gen.C01.byNameValue (f.name, f.value) = lastIdx (matchNV f) staticTable ∧
+    lookupN Gen.C01.byName f.name = lastIdx (matchN f) staticTable := by
+  constructor
+  · unfold lookupNV
+    cases hfind : Gen.C01.byNameValue.find? (fun p => p.1 == (f.name, f.value)) with
+    | some p =>
+      have hmem := List.mem_of_find?_eq_some hfind
+      have hkey : p.1 = (f.name, f.value) := by simpa using List.find?_some hfind
+      have := List.all_eq_true.mp byNameValue_points_at_last p hmem
+      simp only [beq_iff_eq] at this
+      show p.2 = _
+      rw [← this]
+      have hk1 : p.1.1 = f.name := by rw [hkey]
+      have hk2 : p.1.2 = f.value := by rw [hkey]
+      simp only [hk1, hk2]
+      rfl
+    | none =>
+      simp only
+      by_cases h0 : lastIdx (matchNV f) staticTable = 0
+      · exact h0.symm
+      · exfalso
+        obtain ⟨e, hget, hpe⟩ := lastIdx_spec _ _ h0
+        have hmem := mem_of_getElem? _ _ _ hget
+        have he : e = (f.name, f.value) := (matchNV_iff f e).1 hpe
+        have hc := List.all_eq_true.mp byNameValue_covers e hmem
+        obtain ⟨p, hp, hpk⟩ := List.any_eq_true.mp hc
+        have hnone := List.find?_eq_none.mp hfind p hp
+        rw [he] at hpk
+        exact hnone hpk
+  · unfold lookupN
+    cases hfind : Gen.C01.byName.find? (fun p => p.1 == f.name) with
+    | some p =>
+      have hmem := List.mem_of_find?_eq_some hfind
+      have hkey : p.1 = f.name := by simpa using List.find?_some hfind
+      have := List.all_eq_true.mp byName_points_at_last p hmem
+      simp only [beq_iff_eq] at this
+      show p.2 = _
+      rw [← this, hkey]
+      rfl
+    | none =>
+      simp only
+      by_cases h0 : lastIdx (matchN f) staticTable = 0
+      · exact h0.symm
+      · exfalso
+        obtain ⟨e, hget, hpe⟩ := lastIdx_spec _ _ h0
+        have hmem := mem_of_getElem? _ _ _ hget
+        have he : e.1 = f.name := (matchN_iff f e).1 hpe
+        have hc := List.all_eq_true.mp byName_covers e hmem
+        obtain ⟨p, hp, hpk⟩ := List.any_eq_true.mp hc
+        have hnone := List.find?_eq_none.mp hfind p hp
+        rw [he] at hpk
+        exact hnone hpk
+
+/-! ### Non-vacuity -/
+
+/-- The hypotheses of the partial theorem are satisfiable by a history with size changes, a
+sensitive field, a static hit and a dynamic hit; its blocks decode to the input. -/
+def sampleHistory : List Block :=
+  [{ fields := [witnessField, { name := [58, 109, 101, 116, 104, 111, 100], value := [71, 69, 84] }] },
+   { pre := [.setLimit 100, .setLimit 4096, .setMax 4096],
+     fields := [witnessField, { name := [97], value := [99], sensitive := true }] },
+   { pre := [.setMax 0, .setMax 200], fields := [witnessField] }]
+
+example : avoidsDefect (Sys.init 4096) sampleHistory = true := by decide +kernel
+example : Sys.run (Sys.init 4096) sampleHistory = sampleHistory.map (fun b => (b.fields, none)) := by decide +kernel
+example : FieldOK witnessField := by
+  refine ⟨?_, ?_, by decide⟩ <;> (intro x hx; simp [witnessField] at hx; omega)
+example : Sim 4096 (Sys.init 4096).enc (Sys.init 4096).dec.toDecCore := (init_between 4096 (by decide)).sim
 
 end NetVerif.Proofs.C01
